@@ -102,6 +102,7 @@ def gen_config(rnd, max_jobs=14, max_depth=3, profile=None):
                     jobs[a]["reqs"].append(b)
             rnd.shuffle(jobs[a]["reqs"])
     cfg = {"jobs": jobs, "pure_root": pure_root}
+    cfg["sync_api"] = rnd.random() < 0.5
     if rnd.random() < p["inspect"]:
         # a monitor calls the read-only inspection API of every scheduler at every quiescent point
         cfg["inspect"] = True
